@@ -710,6 +710,9 @@ func challenge(c *vf.Ctx) {
 			if k.verAlt {
 				spec.Version = [8]byte{6, 1, 0xb1, 0x1d, 0, 0, 0, 15}
 			}
+			if i%5 == 4 {
+				spec.Version = [8]byte{} // negotiated, and all zero: a version like any other
+			}
 		}
 		if k.gap < 0 && len(spec.TargetName)+len(spec.TargetInfo) < 8 {
 			return // shorter than 56 bytes in all: whether that is still a CHALLENGE is not this lattice's question
